@@ -456,6 +456,40 @@ pub fn test_merged(c: &MergedCase, ctx: &mut CaseCtx) -> Result<(), String> {
             c.children, c.query, s.0, s.1, got.0, got.1
         ));
     }
+    // fuzzy search: with a cap no child reaches, the words (and distances) the merged dictionary
+    // offers are exactly those its children offer; a word listed twice may be offered once
+    {
+        let bound = (c.query.chars().count() % 3) as u8 + 1;
+        let set = |d: &dyn Dictionary| -> std::collections::BTreeSet<(String, u8)> {
+            d.fuzzy_match(&q, bound, 100).into_iter().map(|r| (string(r.word), r.edit_distance)).collect()
+        };
+        let got = set(&merged);
+        let mut want = std::collections::BTreeSet::new();
+        for k in &kids {
+            want.extend(set(&**k));
+        }
+        ctx.class_if(want.len() >= 2, "fuzzy_union_of_two_or_more_words");
+        {
+            let mut lowers: Vec<String> = want.iter().map(|(w, _)| w.to_lowercase()).collect();
+            lowers.sort();
+            let n = lowers.len();
+            lowers.dedup();
+            ctx.class_if(lowers.len() < n, "fuzzy_union_with_case_variants");
+        }
+        if got != want {
+            return Err(format!(
+                "Merged{:?} fuzzy_match({:?}, {bound}, 100) offers {:?}; its children offer {:?}",
+                c.children, c.query, got, want
+            ));
+        }
+        let got_str: std::collections::BTreeSet<(String, u8)> = merged.fuzzy_match_str(&c.query, bound, 100).into_iter().map(|r| (string(r.word), r.edit_distance)).collect();
+        if got_str != want {
+            return Err(format!(
+                "Merged{:?} fuzzy_match_str({:?}, {bound}, 100) offers {:?}; its children offer {:?}",
+                c.children, c.query, got_str, want
+            ));
+        }
+    }
     if merged.word_count() != kids.iter().map(|k| k.word_count()).sum::<usize>() {
         return Err("Merged word_count is not the sum of its parts".into());
     }
@@ -484,7 +518,8 @@ fn small_words(max_len: usize) -> Vec<String> {
 
 fn small_word() -> BoxedStrategy<String> {
     proptest::collection::vec(
-        prop_oneof![8 => g::sel(&['a', 'b', 'c', 'B', 'A', '\'', 'é', 'z']), 1 => Just('’'), 1 => Just('ß')],
+        // İ lower-cases to two characters
+        prop_oneof![8 => g::sel(&['a', 'b', 'c', 'B', 'A', '\'', 'é', 'z']), 1 => Just('’'), 1 => Just('ß'), 1 => Just('İ'), 1 => g::sel(&['i', 'I'])],
         1..6,
     )
     .prop_map(|v| v.into_iter().collect())
@@ -492,7 +527,7 @@ fn small_word() -> BoxedStrategy<String> {
 }
 
 pub fn run(run: &mut Run) {
-    run.rule = "(a) curated FST / mutable / Merged[fst] / Merged[mutable,fst]: queries = dictionary words re-cased 5 ways, one-edit variants, apostrophe variants, unicode runs, empty, long (<=255): membership, exact membership, metadata, canonical spelling and all *_str twins must agree. (b) fuzzy: every dictionary of <=2 (thorough 3) words of length <=2 over {a,b,B,'} (built the way callers build them: MutableDictionary, then FstDictionary::from) x every query of length <=3 x bound 0..3 x cap {1,2,100}, random larger dictionaries, dictionaries of 1-3 words of 40-90 letters queried with 0-2 edits (fuzzy_long_words), and the curated dictionary with brute-force Levenshtein as reference. (c) small_backends_agree: random dictionaries of 1-4 words over {a,b,B,é,t,s,',’,‘} (typographic apostrophes also in the stored words) as MutableDictionary, the FstDictionary built from it, Merged[mutable] and Merged[fst]: all answers agree for every stored word, its apostrophe and case variants and a random query. (d) Merged of 1-3 random children = union, first child wins. Non-trivial = query is not an entry (case/edit variant) and the dictionary has >=2 entries.".into();
+    run.rule = "(a) curated FST / mutable / Merged[fst] / Merged[mutable,fst]: queries = dictionary words re-cased 5 ways, one-edit variants, apostrophe variants, unicode runs, empty, long (<=255): membership, exact membership, metadata, canonical spelling and all *_str twins must agree. (b) fuzzy: every dictionary of <=2 (thorough 3) words of length <=2 over {a,b,B,'} (built the way callers build them: MutableDictionary, then FstDictionary::from) x every query of length <=3 x bound 0..3 x cap {1,2,100}, random larger dictionaries, dictionaries of 1-3 words of 40-90 letters queried with 0-2 edits (fuzzy_long_words), and the curated dictionary with brute-force Levenshtein as reference. (c) small_backends_agree: random dictionaries of 1-4 words over {a,b,B,é,t,s,',’,‘} (typographic apostrophes also in the stored words) as MutableDictionary, the FstDictionary built from it, Merged[mutable] and Merged[fst]: all answers agree for every stored word, its apostrophe and case variants and a random query. (d) Merged of 1-3 random children = union, first child wins; its fuzzy search offers exactly the (word, distance) pairs its children offer. Random words are over {a,b,c,A,B,é,z,',’,ß,İ,i,I}. Non-trivial = query is not an entry (case/edit variant) and the dictionary has >=2 entries.".into();
 
     let n = run.n(50_000, 2_000_000);
     run.prop("curated_backends_agree", n, curated_query, test_curated_query);
@@ -683,6 +718,7 @@ pub fn run(run: &mut Run) {
     run.require_class("merged_is_union", "in_two_children", (n / 50) as u64);
     run.require_class("merged_is_union", "dialect_restricted_in_one_child_free_in_another", (n / 100) as u64);
     run.require_class("merged_is_union", "other_capitalisation_only", (n / 50) as u64);
+    run.require_class("merged_is_union", "fuzzy_union_with_case_variants", (n / 50) as u64);
 }
 
 pub fn replay(check: &str, case: Value, _run: &mut Run) -> Result<(), String> {
